@@ -952,6 +952,8 @@ def r05f(ck, prog):
             if t is None:
                 raise AnalysisBroken("R05f: alphabet %s not evaluated" % name)
             n += 1
+            if t["error"] and t["error"].startswith("undecided"):
+                raise AnalysisBroken("R05f: the constructor of %s uses a construct the constant evaluator does not model (%s)" % (name, t["error"]))
             if t["error"]:
                 ck.inst("R05f", where, "%s: constructor evaluation: %s" % (name, t["error"]), prog.config)
                 ck.violation("R05f", "R05f/create_alphabet/%s" % name, where,
